@@ -173,6 +173,79 @@ func main() {
 		return true
 	})
 
+	// ---- the four write loops of the rollback (re-create spent/trimmed, delete created keys, restore
+	// deleted lockups, delete created lockups): is the write reached on EVERY iteration? It is when the
+	// write is a statement of the loop body itself (not nested in an if/switch/closure) and the body
+	// contains no continue/break/goto. (`return err` aborts the whole reorganisation, it does not skip.)
+	type wloop struct {
+		call          string
+		unconditional bool
+	}
+	var wloops []wloop
+	isWrite := func(c *ast.CallExpr) string {
+		switch nm := callName(c); nm {
+		case "batch.Delete", "batch.Put":
+			return nm
+		case "CreateUTXO":
+			if len(c.Args) > 0 {
+				if id, ok := c.Args[0].(*ast.Ident); ok && id.Name == "batch" {
+					return nm
+				}
+			}
+		}
+		return ""
+	}
+	var visitLoops func(n ast.Node)
+	visitLoops = func(root ast.Node) {
+		ast.Inspect(root, func(n ast.Node) bool {
+			var body *ast.BlockStmt
+			switch x := n.(type) {
+			case *ast.ForStmt:
+				body = x.Body
+			case *ast.RangeStmt:
+				body = x.Body
+			}
+			if body == nil || n == ast.Node(loop) {
+				return true
+			}
+			which := ""
+			ast.Inspect(body, func(m ast.Node) bool {
+				if c, ok := m.(*ast.CallExpr); ok && which == "" {
+					which = isWrite(c)
+				}
+				return true
+			})
+			if which == "" {
+				return true
+			}
+			direct := false
+			for _, st := range body.List {
+				var c *ast.CallExpr
+				switch y := st.(type) {
+				case *ast.ExprStmt:
+					c, _ = y.X.(*ast.CallExpr)
+				case *ast.AssignStmt:
+					if len(y.Rhs) == 1 {
+						c, _ = y.Rhs[0].(*ast.CallExpr)
+					}
+				}
+				if c != nil && isWrite(c) == which {
+					direct = true
+				}
+			}
+			branches := false
+			ast.Inspect(body, func(m ast.Node) bool {
+				if _, ok := m.(*ast.BranchStmt); ok {
+					branches = true
+				}
+				return true
+			})
+			wloops = append(wloops, wloop{which, direct && !branches})
+			return false
+		})
+	}
+	visitLoops(loop.Body)
+
 	// ---- AddNewLock: oldLockupData, err = rawdb.WriteCoinbaseLockupToSlice(balance, trancheUnlockHeight, elements, X)
 	_, cf := parse(filepath.Join(*repo, "core", "vm", "contracts.go"))
 	anl := findFunc(cf, "", "AddNewLock")
@@ -233,6 +306,14 @@ func main() {
 	fmt.Fprintf(&sb, "Definition coinbase_lockup_key_length : N := %d.\n", rawdb.CoinbaseLockupKeyLength)
 	fmt.Fprintf(&sb, "(* core/headerchain.go:SetCurrentHeader, rollback loop, database calls in source order *)\n")
 	fmt.Fprintf(&sb, "Definition rollback_calls : list string := %s.\n", coqStrings(calls))
+	{
+		it := make([]string, len(wloops))
+		for i, w := range wloops {
+			it[i] = fmt.Sprintf("(\"%s\"%%string, %s)", w.call, coqBool(w.unconditional))
+		}
+		fmt.Fprintf(&sb, "(* the loops of the rollback that write outputs / lockup records, in source order; true = the write is reached on every iteration (statement of the loop body, no continue/break in the body) *)\n")
+		fmt.Fprintf(&sb, "Definition rollback_write_loops : list (string * bool) := [%s].\n", strings.Join(it, "; "))
+	}
 	fmt.Fprintf(&sb, "Definition deleted_lockups_restored_in_reverse : bool := %s.\n", coqBool(reverse))
 	fmt.Fprintf(&sb, "(* core/vm/contracts.go:AddNewLock: oldLockupData is built with `%s` *)\n", undoArg)
 	fmt.Fprintf(&sb, "Definition undo_uses_old_delegate : bool := %s.\n", coqBool(undoArg == "oldDelegate"))
